@@ -1,6 +1,8 @@
 package h
 
 import (
+	"strconv"
+	"math"
 	"net/http"
 	"os"
 	"strings"
@@ -22,7 +24,7 @@ func init() {
 // C15 — zhttp picks the documented source and reports undecodable requests as one issue.
 
 func C15_Jobs() []string {
-	return []string{"dispatch", "dispatch-real/json", "dispatch-real/form", "dispatch-real/query", "bad-json", "bad-form", "empty-object", "query-values", "form-values", "ptr-dest", "content-length", "form-merges-query", "bad-body-ptr-notnil"}
+	return []string{"dispatch", "dispatch-real/json", "dispatch-real/form", "dispatch-real/query", "bad-json", "bad-form", "empty-object", "query-values", "form-values", "ptr-dest", "content-length", "form-merges-query", "bad-body-ptr-notnil", "json-whitespace"}
 }
 func C15_Covers() []string { return []string{"json", "form", "query", "decode-failure"} }
 
@@ -87,7 +89,9 @@ func C15_Run(job string) {
 	case "dispatch-real":
 		// the real parsers, sentinel values in body / form / query tell which source was read
 		cts := map[string][]string{
-			"json":  {"application/json", "application/json; charset=utf-8", "application/json;charset=utf-8"},
+			"json": {"application/json", "application/json; charset=utf-8", "application/json;charset=utf-8",
+				// parameters are not zog's business: repeated, oddly cased, valueless, quoted
+				"application/json; charset=utf-8; charset=UTF-8", "application/json; a=1; A=2", "application/json; charset", "application/json;;q=1", `application/json; x="a;b"`, "application/json; charset=utf-8; charset=utf-8"},
 			"form":  {"application/x-www-form-urlencoded", "application/x-www-form-urlencoded; charset=UTF-8"},
 			"query": {"", "text/plain", "multipart/form-data; boundary=x", "application/xml"},
 		}[b]
@@ -137,6 +141,26 @@ func C15_Run(job string) {
 		v.Assert(n == 1 && len(errs["$root"]) == 1 && errs["$root"][0].Code == code, "C15:decode-failure-not-exactly-one-top-level-issue")
 		v.Assert(ran == 0, "C15:schema-ran-after-decode-failure")
 		v.Assert(d.A == 42 && d.Name == "keep", "C15:destination-written-after-decode-failure")
+	case "json-whitespace":
+		// JSON allows space, tab, LF and CR around the document: every 0..2-byte prefix and suffix of
+		// them (chosen byte by byte) leaves a valid object valid and an invalid one invalid
+		ws := []string{"", " ", "\t", "\n", "\r"}
+		pre := ws[v.Choice("pre1", 5)] + ws[v.Choice("pre2", 5)]
+		post := ws[v.Choice("post", 5)]
+		valid := v.Choice("valid", 2) == 1
+		doc := `{"a":5,"name":"n"}`
+		if !valid {
+			doc = `[5]`
+		}
+		var d c15Dest
+		errs := z.Struct(z.Schema{"a": z.Int().Required(), "name": z.String().Required()}).Parse(zhttp.Request(c11Request("POST", "application/json", pre+doc+post, "")), &d)
+		if valid {
+			v.Cover("json")
+			v.Assert(errs == nil && d.A == 5 && d.Name == "n", "C15:unexpected-issues")
+		} else {
+			v.Cover("decode-failure")
+			v.Assert(len(errs) == 2 && len(errs["$root"]) == 1 && errs["$root"][0].Code == "invalid_json", "C15:decode-failure-not-exactly-one-top-level-issue")
+		}
 	case "form-merges-query":
 		// the form is the body PLUS the URL query, as net/http defines it (body values first): for
 		// every method that carries a form body
@@ -311,8 +335,61 @@ var c14Records = []c14Val{
 }
 
 func C14_Jobs() []string {
-	return append([]string{"flat/json", "flat/zhttp-json", "flat/form", "flat/query", "flat/env", "nested/json", "nested/zhttp-json", "nested/form", "nested/query", "nested/env", "flat/sequence", "flat/zhttp-json-param", "flat/named-map", "nested/named-map", "flat/named-strmap", "flat/env-reused"}, c14SymJobs()...)
+	return append([]string{"flat/json", "flat/zhttp-json", "flat/form", "flat/query", "flat/env", "nested/json", "nested/zhttp-json", "nested/form", "nested/query", "nested/env", "flat/sequence", "flat/zhttp-json-param", "flat/named-map", "nested/named-map", "flat/named-strmap", "flat/env-reused", "values/float32-and-lists"}, c14SymJobs()...)
 }
+// one record whose leaves sit on value boundaries (a decimal next to a float32 rounding midpoint,
+// a list whose occurrences are all equal, a one-element list), through every front end
+func c14Values() {
+	type R struct {
+		Ratio float32  `json:"ratio" form:"ratio" query:"ratio" env:"RATIO"`
+		Votes []string `json:"votes" form:"votes" query:"votes"`
+		One   []string `json:"one" form:"one" query:"one"`
+	}
+	lit := []string{"1.00000005960464478", "16777217", "0.1", "3.4028235677973366e38", "1e-46"}[v.Choice("literal", 5)]
+	sc := func() *z.StructSchema {
+		return z.Struct(z.Schema{"ratio": z.Float32(), "votes": z.Slice(z.String()).Min(2), "one": z.Slice(z.String())})
+	}
+	obs := func(errs z.ZogIssueMap, d *R) string {
+		out := v.Sprint(len(errs), len(d.Votes), len(d.One), math.Float32bits(d.Ratio))
+		for _, k := range []string{"ratio", "votes", "one", "RATIO"} {
+			out += "|" + strings.ToLower(k) + ":" + codesOf(errs[k])
+		}
+		return out
+	}
+	f64, _ := strconv.ParseFloat(lit, 64)
+	var dRef R
+	eRef := sc().Parse(map[string]any{"ratio": f64, "votes": []any{"yes", "yes"}, "one": []any{"x"}}, &dRef)
+	want := obs(eRef, &dRef)
+	var d R
+	var errs z.ZogIssueMap
+	qs := "ratio=" + lit + "&votes=yes&votes=yes&one=x"
+	front := v.Choice("front", 6)
+	switch front {
+	case 0:
+		errs = sc().Parse(map[string]any{"ratio": lit, "votes": []string{"yes", "yes"}, "one": "x"}, &d)
+	case 1:
+		errs = sc().Parse(zjson.Decode(strings.NewReader(`{"ratio":`+lit+`,"votes":["yes","yes"],"one":["x"]}`)), &d)
+	case 2:
+		errs = sc().Parse(zhttp.Request(c11Request("POST", "application/json", `{"ratio":"`+lit+`","votes":["yes","yes"],"one":"x"}`, "")), &d)
+	case 3:
+		errs = sc().Parse(zhttp.Request(c11Request("POST", "application/x-www-form-urlencoded", qs, "")), &d)
+	case 4:
+		errs = sc().Parse(zhttp.Request(c11Request("GET", "", "", qs)), &d)
+	default:
+		os.Setenv("RATIO", lit)
+		var de struct {
+			Ratio float32 `env:"RATIO"`
+		}
+		ee := z.Struct(z.Schema{"ratio": z.Float32()}).Parse(zenv.NewDataProvider(), &de)
+		os.Unsetenv("RATIO")
+		v.Cover("clean-record")
+		v.Assert(codesOf(ee["RATIO"]) == strings.ReplaceAll(codesOf(eRef["ratio"]), "|ratio|", "|RATIO|") && math.Float32bits(de.Ratio) == math.Float32bits(dRef.Ratio), "C14:front-end-view-differs-from-the-map-view")
+		return
+	}
+	v.Cover("clean-record")
+	v.Assert(obs(errs, &d) == want, "C14:front-end-view-differs-from-the-map-view")
+}
+
 func C14_Covers() []string { return []string{"clean-record", "failing-record"} }
 
 type c14H map[string]any
@@ -345,6 +422,11 @@ func C14_Run(job string) {
 	a, b, _, _ := split3(job)
 	if a == "sym" {
 		c14Sym(b)
+		return
+	}
+	if a == "values" {
+		v.MapOrderChoice(false)
+		c14Values()
 		return
 	}
 	if b == "sequence" {
